@@ -19,7 +19,7 @@ ASSUMPTIONS = ['tilt-free wavefronts only (tilt is C04)', 'all-zero masks are re
 PLAN = {'quick': {'gen': 8}, 'thorough': {'gen': 16, 'tests': 1, 'docs': 1}}
 REQUIRED_BUCKETS = ['in:ee', 'in:oo', 'in:eo', 'in:oe', 'out:even', 'out:odd', 'dx:iso', 'dx:aniso', 'du:iso', 'du:aniso',
                     'prop<shape', 'prop=shape', 'mask', 'nomask', 'dir:pupil->image', 'dir:image->pupil', 'chain:2',
-                    'mask+prop', 'repeated', 'segmented', 'shape:small-int', 'scalars:float32', 'broadband', 'fft:broadband-scratch', 'alpha:near-critical', 'fft:explicit-shape', 'fft:explicit-shape:odd', 'mask:object-reused', 'amp:any-magnitude', 'fft:anamorphic', 'fft:even-grid:half-sum-parity=0', 'fft:even-grid:half-sum-parity=1', 'fft:grid-parity=01', 'fft:grid-parity=10']
+                    'mask+prop', 'repeated', 'segmented', 'shape:small-int', 'scalars:float32', 'broadband', 'fft:broadband-scratch', 'alpha:near-critical', 'fft:explicit-shape', 'fft:explicit-shape:odd', 'mask:object-reused', 'amp:any-magnitude', 'oversample:integer-valued-float', 'fft:anamorphic', 'fft:even-grid:half-sum-parity=0', 'fft:even-grid:half-sum-parity=1', 'fft:grid-parity=01', 'fft:grid-parity=10']
 REQUIRED_ANCHORS = ['probe:propagate_dft', 'probe:propagate_fft', 'anchor:_dft_alpha', 'anchor:_mask_shift', 'anchor:dft2',
                     'anchor:intersection_shift']
 REQUIRED_ORACLES = ['dft=fraunhofer', 'dft=fraunhofer:meta', 'dft=fraunhofer:outside=0', 'fft=fraunhofer', 'fft=fraunhofer:meta']
@@ -107,7 +107,8 @@ def fft_broadband(ctx, lentil, rng):
                     ctx.bucket('fft:explicit-shape')
                     if (shp[0] * os_) % 2 == 1 or (shp[1] * os_) % 2 == 1:
                         ctx.bucket('fft:explicit-shape:odd')
-                    lentil.propagate_fft(lentil.Wavefront(wl) * pupil, du0, shape=shp if rng.random() < 0.7 else shp[0], oversample=os_,
+                    lentil.propagate_fft(lentil.Wavefront(wl) * pupil, du0, shape=shp if rng.random() < 0.7 else shp[0],
+                                         oversample=os_ if rng.random() < 0.7 else float(os_),
                                          **({'scratch': scratch} if rng.random() < 0.5 else {}))
             except Exception as e:
                 ctx.check(False, 'fft=fraunhofer', f'fft-broadband|raises={type(e).__name__}', str(e), {'wl': wl})
@@ -272,6 +273,12 @@ def workload(ctx, lentil):
             if pshape is not None:
                 kw['prop_shape'] = np.array(pshape, dtype=small_int)
         du = du_arg
+        os_int = os_
+        if i % 6 == 1 and small_int is None:
+            # an integer oversampling factor that arrives as a float (np.ceil(2 / Q), 4 / 2, a value from a configuration file: the
+            # documented type of the argument is float)
+            os_ = [float(os_), np.float64(os_), np.float32(os_)][(i // 6) % 3]
+            ctx.bucket('oversample:integer-valued-float')
         try:
             lentil.propagate_dft(w, du, oversample=os_, **kw)     # probe decides
             if i % 3 == 0:
